@@ -200,7 +200,14 @@ def lean_prepare(pid, need_driver=True, leanchecker=False):
 class Driver:
     """Line protocol to the compiled Lean model. One JSON request per line, one response per line."""
     def __init__(self):
-        self.exe = PEPPERD
+        # private copy taken under the build lock: a concurrent `lake build pepperd` replaces the file
+        self.exe = os.path.join(BUILD, "pepperd-%d" % os.getpid())
+        with locked():
+            if not os.path.exists(self.exe) or os.path.getmtime(self.exe) < os.path.getmtime(PEPPERD):
+                shutil.copy2(PEPPERD, self.exe + ".tmp")
+                os.replace(self.exe + ".tmp", self.exe)
+        import atexit
+        atexit.register(lambda p=self.exe: os.path.exists(p) and os.remove(p))
 
     def call_many(self, reqs, timeout=1800):
         if not reqs:
